@@ -221,10 +221,35 @@ def cuStored (resp : Option Response) : CurlJob :=
 /-- the callback call made after the `Unlock` (with the stored job) -/
 def cuCb (resp : Option Response) : W × CallResult Unit := X.callback (cuDoCall X σ cu ctx).1 ctx (cuStored cu ctx resp)
 
-/-- unfold one `CurlJob.Execute` with everything known in the context -/
+/-- unfold one `CurlJob.Execute` (and its helper `CurlJob.do`, which holds the critical section) with everything known in the
+context -/
 macro "cu_simp" : tactic =>
-  `(tactic| simp [CurlJob.Execute, St.cuCloseBody, St.cuDo, St.cuCallback, St.emit, cuHead, cuTail, cuStored, cuDoCall, cuW1,
+  `(tactic| simp [CurlJob.Execute, CurlJob.do, St.cuCloseBody, St.cuDo, St.cuCallback, St.emit, cuHead, cuTail, cuStored, cuDoCall, cuW1,
       cuClose, cuReq, cuOk, cuCb, *])
+
+/-- the helper `CurlJob.do` (Lock; defer Unlock; …): `Close` (if any) returned, `Do` returned `(resp, err)` — the whole critical
+section, ended by the deferred unlock, AFTER the result has been evaluated -/
+theorem cu_do_returned (resp : Option Response) (err : Option Err)
+    (hclose : cuPrev cu = true → ∃ e, (cuClose X σ cu).2 = .returned e)
+    (hdo : (cuDoCall X σ cu ctx).2 = .returned (resp, err)) :
+    CurlJob.do X σ cu ctx =
+      (⟨(cuDoCall X σ cu ctx).1, σ.out ++ cuHead X σ cu ++ cuTail cu ctx resp err⟩, cuStored cu ctx resp, .returned err) := by
+  by_cases hp : cuPrev cu = true
+  · obtain ⟨e, he⟩ := hclose hp
+    have hp' := hp
+    simp only [cuPrev] at hp'
+    simp only [cuDoCall, cuW1, cuReq, hp, if_true] at hdo
+    simp only [cuClose] at he hdo
+    rcases resp with _ | r
+    · cu_simp
+    · by_cases h1 : (200 : Int) ≤ r.StatusCode <;> by_cases h2 : r.StatusCode < 400 <;> cu_simp
+  · have hp' := hp
+    simp only [cuPrev] at hp'
+    simp only [cuDoCall, cuW1, cuReq, hp] at hdo
+    simp only [Bool.false_eq_true, if_false] at hdo
+    rcases resp with _ | r
+    · cu_simp
+    · by_cases h1 : (200 : Int) ≤ r.StatusCode <;> by_cases h2 : r.StatusCode < 400 <;> cu_simp
 
 /-- `Close` (if any) returned, `Do` returned `(resp, err)` -/
 theorem cu_execute_returned (resp : Option Response) (err : Option Err)
@@ -238,43 +263,19 @@ theorem cu_execute_returned (resp : Option Response) (err : Option Err)
          | .returned _ => .returned err
          | .panicked => .panicked)
       else (⟨(cuDoCall X σ cu ctx).1, σ.out ++ cuHead X σ cu ++ cuTail cu ctx resp err⟩, cuStored cu ctx resp, .returned err) := by
-  by_cases hp : cuPrev cu = true
-  · obtain ⟨e, he⟩ := hclose hp
-    have hp' := hp
-    simp only [cuPrev] at hp'
-    simp only [cuDoCall, cuW1, cuReq, hp, if_true] at hdo
-    simp only [cuClose] at he hdo
-    cases hc : cu.callback with
-    | none =>
-      rcases resp with _ | r
-      · cu_simp
-      · by_cases h1 : (200 : Int) ≤ r.StatusCode <;> by_cases h2 : r.StatusCode < 400 <;> cu_simp
-    | some c =>
-      rcases resp with _ | r
-      · cu_simp
-        split <;> simp_all
-      · by_cases h1 : (200 : Int) ≤ r.StatusCode <;> by_cases h2 : r.StatusCode < 400 <;> cu_simp <;> split <;> simp_all
-  · have hp' := hp
-    simp only [cuPrev] at hp'
-    simp only [cuDoCall, cuW1, cuReq, hp] at hdo
-    simp only [Bool.false_eq_true, if_false] at hdo
-    cases hc : cu.callback with
-    | none =>
-      rcases resp with _ | r
-      · cu_simp
-      · by_cases h1 : (200 : Int) ≤ r.StatusCode <;> by_cases h2 : r.StatusCode < 400 <;> cu_simp
-    | some c =>
-      rcases resp with _ | r
-      · cu_simp
-        split <;> simp_all
-      · by_cases h1 : (200 : Int) ≤ r.StatusCode <;> by_cases h2 : r.StatusCode < 400 <;> cu_simp <;> split <;> simp_all
+  have hd := cu_do_returned X σ cu ctx resp err hclose hdo
+  cases hc : cu.callback with
+  | none => simp [CurlJob.Execute, hd, cuStored, hc]
+  | some c =>
+    simp [CurlJob.Execute, hd, St.cuCallback, cuCb, cuStored, hc]
+    split <;> simp_all
 
-/-- `Do` panicked (after a `Close` that returned, if any): the method is left WITH THE MUTEX HELD — no `Unlock` event follows
-the `Lock`, the only field written is `request` -/
+/-- `Do` panicked (after a `Close` that returned, if any): the deferred unlock runs — the LAST event is the `Unlock` of the mutex,
+the only field written is `request`, and the panic goes on to the caller of `Execute` (no callback) -/
 theorem cu_execute_do_panicked (hclose : cuPrev cu = true → ∃ e, (cuClose X σ cu).2 = .returned e)
     (hdo : (cuDoCall X σ cu ctx).2 = .panicked) :
     CurlJob.Execute X σ cu ctx =
-      (⟨(cuDoCall X σ cu ctx).1, σ.out ++ cuHead X σ cu ++ [.httpDo cu.httpClient (cuReq cu ctx) .panicked]⟩,
+      (⟨(cuDoCall X σ cu ctx).1, σ.out ++ cuHead X σ cu ++ [.httpDo cu.httpClient (cuReq cu ctx) .panicked, .unlock "cu.mtx"]⟩,
        { cu with request := cuReq cu ctx }, .panicked) := by
   by_cases hp : cuPrev cu = true
   · obtain ⟨e, he⟩ := hclose hp
@@ -288,6 +289,18 @@ theorem cu_execute_do_panicked (hclose : cuPrev cu = true → ∃ e, (cuClose X 
     simp only [cuDoCall, cuW1, cuReq, hp] at hdo
     simp only [Bool.false_eq_true, if_false] at hdo
     cu_simp
+
+/-- the `Close` of the previous body panicked: `Do` is not called, the deferred unlock runs, the panic goes on -/
+theorem cu_execute_close_panicked (hp : cuPrev cu = true) (hclose : (cuClose X σ cu).2 = .panicked) :
+    CurlJob.Execute X σ cu ctx =
+      (⟨(cuClose X σ cu).1,
+        σ.out ++ [.lock "cu.mtx", .read "cu.request", .write "cu.request", .read "cu.response", .read "cu.response",
+          .read "cu.response", .closeBody ((deref cu.response).Body) .panicked, .unlock "cu.mtx"]⟩,
+       { cu with request := cuReq cu ctx }, .panicked) := by
+  have hp' := hp
+  simp only [cuPrev] at hp'
+  simp only [cuClose] at hclose
+  cu_simp
 
 /-- the status decision of the translated code is the model's `curlStatus` -/
 theorem absStatus_cuOk (resp : Option Response) :
